@@ -59,7 +59,7 @@ Definition encode_text_fmt (fmt : tformat) (t : tmap) : tmap :=
 Definition decode_text_fmt (fmt : tformat) (t : tmap) : option tmap :=
   match fmt with Unicode => decode_text t | ShiftJIS => Some t end.
 
-Definition history_file (m : mode) (fmt : tformat) (e : endian) (ops : list top) : outcome bytes :=
-  TextFormat.serialize m fmt e (encode_text_fmt fmt (tm_run ops)).
+Definition history_file (kf : BinFormat.name_key) (m : mode) (fmt : tformat) (e : endian) (ops : list top) : outcome bytes :=
+  TextFormat.serialize kf m fmt e (encode_text_fmt fmt (tm_run ops)).
 Definition parse_text (fmt : tformat) (e : endian) (f : bytes) : outcome (option tmap) :=
   t <- TextFormat.from_bytes fmt e f ;; Ok (decode_text_fmt fmt t).
